@@ -227,6 +227,9 @@ def _run(name, fam, spec, r, np, sp, private):
             break
         if op in ("fit", "fit_transform"):
             X, kw = (fam.args(spec, spec["train"])[0], fam.fit_kwargs(spec, spec["train"])) if is_gen else (train_X, train_kw)
+            if is_gen and hasattr(est, "generator_n_distributions"):
+                # the declared number of distributions follows the data (an earlier transform of another input changed it)
+                est.generator_n_distributions = fam.n_items(spec["train"])
             s, out = call(getattr(est, op), X, **kw)
             if s == "exc":
                 if name.endswith("_cooc") and name != "tree_cooc":
